@@ -6,6 +6,7 @@ from .. import inputs
 from . import geom
 
 SPEC = dict(
+    technique='Lean 4 proof (validity predicates, argument-handler model) + model/implementation correspondence + perturbation monitor',
     lean_modules=['SmVerif.Props.C07', 'SmVerif.Props.VecPreds'],
     groups=['TransformsNd', 'Transforms3d', 'Transforms2d', 'Vectors', 'Quaternions'],
     expected_untranslatable=('trinterp_T', 'trinterp_T_nostart'),
@@ -80,6 +81,26 @@ def _impl(tier, seed, search):
                 ok, X = L.noraise('ctor-accepts-valid', ctor, dict(cls=cname, form=fname, value=G1), f'{cname}({fname}) with valid members must be accepted')
                 if ok:
                     L.check('ctor-accepts-valid', all(a is not None for a in X.data) and np.allclose(X.data[0], G1), dict(cls=cname, form=fname), 'valid value not stored')
+        # a pose object supplied to the constructor of ANOTHER pose class (bare, in a list, mixed with valid objects): either rejected
+        # or converted — the result never holds a value of the wrong shape / outside the group
+        if it % 4 == 0:
+            for cname, cls in CLS.items():
+                for oname, ocls in CLS.items():
+                    if oname == cname: continue
+                    O = ocls(good(oname), check=False); Gd = cls(good(cname), check=False)
+                    for fname, ctor in {'bare': lambda: cls(O), 'list[obj]': lambda: cls([O]), 'list[good,obj]': lambda: cls([Gd, O]), 'tuple(obj,good)': lambda: cls((O, Gd))}.items():
+                        inp = dict(cls=cname, supplied=oname, form=fname)
+                        L.count('ctor-foreign-object', key=(cname, oname, fname)); L.sample('ctor-foreign-object', inp)
+                        try: X = ctor()
+                        except Exception: continue
+                        n_ = 2 if cname in ('SO2', 'SE2') else 3
+                        want = (n_, n_) if cname in ('SO2', 'SO3') else (n_ + 1, n_ + 1)
+                        bad = [a for a in X.data if a is None or np.asarray(a).shape != want]
+                        if bad:
+                            L.fail(f'ctor-foreign-object:{cname}({oname}):{fname}', f'{cname}({fname} of {oname}) holds a value that is not a {want[0]}x{want[1]} member of its group', inp,
+                                   observed=[None if a is None else list(np.asarray(a).shape) for a in X.data]); continue
+                        ok, why = holds_only_members(X, cname)
+                        if not ok: L.fail(f'ctor-foreign-object:{cname}({oname}):{fname}', f'{cname}({fname} of {oname}) holds a non-member: {why}', inp)
         # unit quaternion objects: whatever is supplied, the stored value has norm 1
         qb = g.normal(size=4) * 10.0 ** g.uniform(-3, 3)
         for fname, ctor in {'list': lambda: UnitQuaternion(list(qb)), 'array': lambda: UnitQuaternion(qb), 's,v': lambda: UnitQuaternion(qb[0], qb[1:]),
